@@ -136,6 +136,20 @@ def run(prop, tier, seed):
                     "violation_events": len([v for v in r["viol"] if v["prop"] == prop]), "drift_events": len(r["drift"])} for r in results],
         "trace_stats": stats_total,
     }
+    if prop == "C05":
+        # beyond the list (C05 quantifies over "with or without an explicit flush"): which ranges the flush family hands to
+        # msync(2), against spec/Flush.tla. Informational: never a violation of C05, never a reason to fail the check.
+        try:
+            import check_flush
+            fl = check_flush.run_all(tier, quiet=True)
+            coverage["beyond_list_flush"] = fl
+            coverage["states"] += fl["model"]["combinations"]
+            for r in fl["real"]:
+                if r["beyond_list_violations"]:
+                    print("NOTE beyond-list flush (%s build): %s" % (r["profile"], ", ".join(
+                        "%s x%d" % (k, v["count"]) for k, v in r["beyond_list_violations"].items())))
+        except Exception as e:  # strace not permitted, ...
+            coverage["beyond_list_flush"] = {"not_run": str(e)[:300]}
     if prop == "C09":
         # first half of C09: open attempts on valid / damaged files (ArenaFile model + TraceOpen)
         import check_open
